@@ -8,7 +8,7 @@ object.  So: where the analyzer builds an application whose head is still the op
 construction replaces the head by a variable reference, or has established `operand count <= num_args + 1`
 (the one optional operand), or has established that the class is one of the folded ones."""
 import tables
-from cfg import implied, linform, lin_sub
+from cfg import implied, linform, lin_sub, local_defs
 from report import Finding
 from extract import AnalysisBroken
 
@@ -24,7 +24,15 @@ def folded_classes(prog):
         raise AnalysisBroken("anchor vanished: generate_opcode_app")
     best = None
     for b in fn.blocks.values():
-        if b.term == "SwitchStmt" and b.cond is not None and "op_class" in fn.txt(b.cond):
+        if b.term != "SwitchStmt" or b.cond is None:
+            continue
+        c = fn.strip(b.cond)
+        txt = fn.txt(c)
+        if fn.nodes[c]["k"] == "ref" and "d" in fn.nodes[c] and fn.nodes[c]["d"] not in fn.params:
+            defs = local_defs(fn, fn.nodes[c]["d"])       # a local that caches the class
+            if len(defs) == 1 and defs[0][1] is not None:
+                txt = fn.txt(defs[0][1])
+        if "op_class" in txt:
             best = b
     if best is None:
         raise AnalysisBroken("anchor vanished: the switch on the opcode class in generate_opcode_app")
@@ -50,6 +58,20 @@ def folded_classes(prog):
                 if nx is not None and nx >= 0 and fn.blocks[nx].lk not in ("case", "default"):
                     st.append(nx)
         cyc = _has_cycle(fn, seen, s)
+        if not cyc:
+            # the loop over the operands may live in a helper of the same unit that is handed an integer local
+            for bid in seen:
+                for e in fn.blocks[bid].elems:
+                    nd = fn.nodes[e]
+                    g = prog.func(nd.get("o") or "") if nd["k"] == "call" else None
+                    if g is None or not g.blocks or g.unit.name != fn.unit.name or g.name == fn.name:
+                        continue
+                    int_arg = any(fn.nodes[fn.strip(a)]["k"] == "ref" and fn.nodes[fn.strip(a)].get("d") is not None
+                                  and fn.nodes[fn.strip(a)]["d"] not in fn.params
+                                  and (fn.var_type(fn.nodes[fn.strip(a)]["d"]) or "") in ("int", "long", "sexp_sint_t", "sexp_uint_t", "unsigned long")
+                                  for a in nd["c"][1:])
+                    if int_arg and _has_cycle(g, set(g.blocks), g.entry):
+                        cyc = True
         if cyc:
             for v in range(sb.clo, (sb.chi if sb.chi is not None else sb.clo) + 1):
                 folded.add(v)
@@ -167,7 +189,7 @@ def _bounding(fn, atom, pol, var_txt, folded, prog, depth=0):
         if g is None or not g.blocks:
             return False
         rets = [x for x in g.nodes if x["k"] == "ret" and x.get("c")]
-        if len(rets) != 1:
+        if not rets:
             return False
         # which parameter receives the opcode variable
         pv = None
@@ -176,8 +198,45 @@ def _bounding(fn, atom, pol, var_txt, folded, prog, depth=0):
                 pv = g.vars[g.params[ai]]["n"]
         if pv is None:
             return False
-        return _bounding(g, rets[0]["c"][0], pol, pv, folded, prog, depth + 1)
+        if len(rets) == 1:
+            return _bounding(g, rets[0]["c"][0], pol, pv, folded, prog, depth + 1)
+        return _helper_establishes(g, pol, pv, folded, prog, depth + 1)
     return False
+
+
+def _helper_establishes(g, pol, pv, folded, prog, depth):
+    """a predicate helper with several returns: every path from its entry to a return whose value can equal `pol`
+    crosses a bounding edge, or the returned expression establishes the bound itself"""
+    seen, st = set(), [g.entry]
+    while st:
+        bid = st.pop()
+        if bid in seen:
+            continue
+        seen.add(bid)
+        b = g.blocks[bid]
+        done = False
+        for e in b.elems:
+            nd = g.nodes[e]
+            if nd["k"] == "ret" and nd.get("c"):
+                v = g.const_val(nd["c"][0])
+                if v is not None:
+                    if bool(v) == pol:
+                        return False
+                elif not _bounding(g, nd["c"][0], pol, pv, folded, prog, depth):
+                    return False
+                done = True
+                break
+            if nd["k"] == "bin" and nd["o"] == "=" and g.txt(g.strip(nd["c"][0])) == pv:
+                return False
+        if done:
+            continue
+        for si, s in enumerate(b.succs):
+            if s is None or s < 0:
+                continue
+            if b.cond is not None and len(b.succs) == 2 and _bounding(g, _decided_by(g, b), si == 0, pv, folded, prog, depth):
+                continue
+            st.append(s)
+    return True
 
 
 def run(prog, res, floor=1):
